@@ -76,3 +76,7 @@ MAN["C04"] = {"text": "Seeded exploration over encodings and target states; what
               "note": "The quantifier is over inputs: sampled, not enumerated. The encoder is independent of the implementation (written from the format descriptions)."}
 MAN["C05"] = {"text": "Seeded exploration of logged histories with a replay of the file after every operation.",
               "note": "Writer faults (failed or short writes) are not injected here; crash truncation at write boundaries is C09's business."}
+
+L4_REAL = ["pilosa.Server, Holder, Index, Field, view, fragment, executor, cluster, API, TranslateFile, boltdb attribute stores", "http.Handler (real router, decoding, encoding) and http.InternalClient over the simulated transport", "encoding/proto Serializer", "real files on tmpfs through intercepted os calls"]
+L4_STUB = ["network: http.RoundTripper that calls the destination node's handler in-process (simrt/net.go)", "membership: gossip/memberlist replaced by a stub that delivers NodeEvent/NodeStatus through API.ClusterMessage", "stats, logger, tracing, diagnostics, GC notifier: no-op implementations shipped with pilosa"]
+PROPS["L4S"] = P("exploration", "smoke test of the cluster harness (not a property)", L4_REAL, L4_STUB, budget=(15, 60))
